@@ -820,3 +820,155 @@ def unique_observable_times(ctx) -> None:
            "a string-valued default_evaluation_times ('Full') raises" if full else
            "the unsupported 'Full' default no longer raises")
     ctx.require(own >= 1 and dflt >= 1, "_unique_observable_times: own/default paths not found")
+
+
+def noise_source(ctx) -> None:
+    """The noise model that reaches Pulser's sampler and the jump-operator builder is the device's default when
+    config.prefer_device_noise_model, config.noise_model otherwise — and the empty NoiseModel() only when that source
+    is empty (a replaced model silently drops every noise channel of the run)."""
+    prog = ctx.prog
+    g, gp = _run(ctx, PA + "PulserData.__init__", cls=PA + "PulserData", loop_iters=(1,))
+    cfgp = ("param", g.qualname, "config")
+    seqp = ("param", g.qualname, "sequence")
+    dev = ("attr", ("attr", seqp, "device"), "default_noise_model")
+    usr = ("attr", cfgp, "noise_model")
+    pref = ("attr", cfgp, "prefer_device_noise_model")
+    n = 0
+    bad = []
+    seen = set()
+    for p in gp:
+        if p.status != "return":
+            continue
+        flag = None
+        for c, t in p.cond_log:
+            if strip_typed(c) == pref:
+                flag = t
+        for e in p.events:
+            if not (e.kind == "call" and (e.name.endswith("HamiltonianData.from_sequence") or e.name == PA + "_get_all_lindblad_noise_operators")):
+                continue
+            v = dict(e.kw).get("noise_model") if dict(e.kw).get("noise_model") is not None else e.args.get("noise_model")
+            if v is None:
+                bad.append(f"{e.name.split('.')[-1]} receives no noise model")
+                continue
+            v = strip_typed(v)
+            n += 1
+            src = dev if flag else usr
+            if flag is None:
+                bad.append(f"{e.name.split('.')[-1]}: the path never consults prefer_device_noise_model")
+                continue
+            empty = None
+            for c, t in p.cond_log[: e.ncond]:
+                if strip_typed(c) == src:
+                    empty = not t
+            seen.add((flag, empty))
+            if empty is True:
+                ok = v[0] in ("new", "call") and v[1].endswith("NoiseModel") and not v[2] and not v[3]
+            elif empty is False:
+                ok = v == src
+            else:
+                ok = v == src   # never tested for emptiness: must be the source itself
+            if not ok:
+                bad.append(f"{e.name.split('.')[-1]}(noise_model={show(v)[:50]}) where prefer_device_noise_model={flag} and "
+                           f"the selected model is {'empty' if empty else 'given'}")
+    ctx.require(n >= 4, f"NOISE-source: only {n} consumer events of the noise model found")
+    ctx.ob("NOISE-source", "PulserData.__init__", g.loc(), not bad,
+           "sampler and jump operators receive the device's default / the config's noise model as selected by "
+           "prefer_device_noise_model; NoiseModel() replaces it only when it is empty" if not bad else
+           f"{bad[0]}: the run is emulated with another noise model than the one configured (channels are silently "
+           f"dropped or invented)")
+
+
+def merge_close_times(ctx) -> None:
+    """_merge_close_times keeps every time that is not a rounding-duplicate of the previous kept one: per iteration of
+    `for t in sorted(times)`, `t` is appended exactly when it is further than the tolerance from the last kept time (or
+    nothing is kept yet); on the close branch nothing is appended, and the end point 1.0 replaces its near-duplicate.
+    Decided on the paths of the loop body in the statement CFG."""
+    prog = ctx.prog
+    f = prog.func(PA + "_merge_close_times")
+    cfg = util.cfg_of(f)
+    loops = [(n, st) for n, st in cfg.stmts() if cfg.g.nodes[n]["kind"] == "loop"]
+    ctx.require(len(loops) == 1, f"TIMEEQ-merge: {len(loops)} loops in _merge_close_times")
+    head, loop = loops[0]
+    it_ok = isinstance(loop.iter, ast.Call) and util.text(loop.iter.func) == "sorted" and len(loop.iter.args) == 1 and \
+        isinstance(loop.iter.args[0], ast.Name) and loop.iter.args[0].id in f.params and isinstance(loop.target, ast.Name)
+    ctx.ob("TIMEEQ-merge", "iterates the sorted times", f.loc(loop), it_ok,
+           "the merge walks sorted(times)" if it_ok else f"the merge iterates {util.text(loop.iter, 50)}")
+    if not it_ok:
+        return
+    t = loop.target.id
+    tol = util.const_value(prog, f.module, ast.Name(id="_TIME_MERGE_TOLERANCE", ctx=ast.Load()), f)
+    ok_tol = isinstance(tol, float) and 0 < tol <= 1e-10
+    ctx.ob("TIMEEQ-merge", "tolerance", f.loc(), ok_tol,
+           f"times closer than {tol:g} are one instant (the backends match evaluation times with 1e-10)" if ok_tol else
+           f"_TIME_MERGE_TOLERANCE = {tol}: above the 1e-10 with which the backends match evaluation times, distinct "
+           f"requested times would be merged away")
+
+    def classify(test: ast.AST):
+        """polarity of the edge on which `t` is a near-duplicate, or None if the test is not the closeness test"""
+        pol = True
+        while isinstance(test, ast.UnaryOp) and isinstance(test.op, ast.Not):
+            test, pol = test.operand, not pol
+        if not (isinstance(test, ast.BoolOp) and isinstance(test.op, ast.And) and len(test.values) == 2):
+            return None
+        kept, cmp_ = test.values
+        if not (isinstance(kept, ast.Name) and isinstance(cmp_, ast.Compare) and len(cmp_.ops) == 1):
+            return None
+        l, r, op = cmp_.left, cmp_.comparators[0], cmp_.ops[0]
+        if isinstance(op, (ast.Gt, ast.GtE)):
+            l, r, op = r, l, (ast.Lt() if isinstance(op, ast.Gt) else ast.LtE())
+        if not isinstance(op, (ast.Lt, ast.LtE)):
+            return None
+        diff_ok = util.text(l).replace(" ", "") == f"{t}-{kept.id}[-1]"
+        tol_ok = util.const_value(prog, f.module, r, f) == tol
+        return (pol, kept.id) if diff_ok and tol_ok else None
+
+    tests = [(n, classify(cfg.g.nodes[n]["ast"])) for n, st in cfg.stmts() if cfg.g.nodes[n]["kind"] == "test"]
+    close = [(n, c) for n, c in tests if c is not None]
+    ctx.require(len(close) == 1, f"TIMEEQ-merge: closeness test `kept and {t} - kept[-1] <= _TIME_MERGE_TOLERANCE` not found")
+    tn, (pol, kept) = close[0]
+
+    def appends(node) -> bool:
+        st = cfg.g.nodes[node].get("ast")
+        return isinstance(st, ast.Expr) and isinstance(st.value, ast.Call) and util.text(st.value.func) == f"{kept}.append" \
+            and len(st.value.args) == 1 and util.text(st.value.args[0]) == t
+
+    def one_iteration(label):
+        """paths from the given edge of the closeness test back to the loop head: number of append(t) on each"""
+        out = []
+        for _, v, d in cfg.g.out_edges(tn, data=True):
+            if d.get("label") is not label:
+                continue
+            for path in cfg.paths(start=v, ends=(head,), max_visits=1):
+                out.append(sum(1 for n_, _ in path if n_ != head and appends(n_)))
+        return out
+    far, near = one_iteration(not pol), one_iteration(pol)
+    ok_far = bool(far) and all(k == 1 for k in far)
+    ok_near = bool(near) and all(k == 0 for k in near)
+    ctx.ob("TIMEEQ-merge", "distinct times are kept", f.loc(cfg.g.nodes[tn]["ast"]), ok_far,
+           "a time further than the tolerance from the last kept one (or the first time) is appended exactly once" if ok_far else
+           f"on the branch where {t} is NOT a near-duplicate it is appended {sorted(set(far))} time(s): requested evaluation "
+           f"times disappear from (or are duplicated in) the target times")
+    ctx.ob("TIMEEQ-merge", "near-duplicates are dropped", f.loc(cfg.g.nodes[tn]["ast"]), ok_near,
+           "a time within the tolerance of the last kept one is not appended" if ok_near else
+           "near-duplicate times are appended as well: two target times closer than the backends' matching tolerance")
+    # 1.0 wins over its near-duplicate
+    end_ok = False
+    for n, st in cfg.stmts():
+        if isinstance(st, ast.Assign) and util.text(st.targets[0]).replace(" ", "") == f"{kept}[-1]" and util.text(st.value) == t:
+            for m, c in tests:
+                test = cfg.g.nodes[m]["ast"]
+                pol1 = True
+                while isinstance(test, ast.UnaryOp) and isinstance(test.op, ast.Not):
+                    test, pol1 = test.operand, not pol1
+                if isinstance(test, ast.Compare) and len(test.ops) == 1 and isinstance(test.ops[0], (ast.Eq, ast.NotEq)) and \
+                        {util.text(test.left), util.text(test.comparators[0])} == {t, "1.0"}:
+                    if isinstance(test.ops[0], ast.NotEq):
+                        pol1 = not pol1
+                    end_ok = cfg.edge_dominates(m, pol1, n) and cfg.edge_dominates(tn, pol, n)
+    ctx.ob("TIMEEQ-merge", "1.0 replaces its near-duplicate", f.loc(), end_ok,
+           "when the end point 1.0 is merged with a neighbour, 1.0 is the value kept" if end_ok else
+           "the end of the sequence (1.0) can be merged into a slightly smaller time: the last target time is then not "
+           "the sequence duration")
+    rets = [st for n, st in cfg.stmts() if isinstance(st, ast.Return)]
+    ok_ret = len(rets) == 1 and util.text(rets[0].value) == kept
+    ctx.ob("TIMEEQ-merge", "returns the kept list", f.loc(), ok_ret, "the kept times are returned" if ok_ret else "the merged list is not what is returned")
